@@ -145,6 +145,8 @@ def expected_render(style, fmt, datefmt, rec):
 def ref_handler(h):
     """h: dict(path kind, max_size, old_files, when, interval, delay, encoding) -> 'accept' class | 'reject' | 'unspec'"""
     std = h["path"] in ("STDOUT", "STDERR")
+    if h["path"] == "MISSINGDIR":
+        h = dict(h, path="FILE")
     ms, of, wh, iv = h.get("max-size"), h.get("old-files"), h.get("when"), h.get("interval")
     ms_on = bool(ms) and ms not in ("0",)
     of_on = bool(of) and of != "0"
@@ -222,6 +224,8 @@ def check_config(cfg, ops, tmp, ls):
         for i, h in enumerate(sec["handlers"]):
             if h["path"] == "FILE":
                 h["path_text"] = os.path.join(tmp, "log-%s-%d.log" % (sec.get("name") or "root", i))
+            elif h["path"] == "MISSINGDIR":
+                h["path_text"] = os.path.join(tmp, "later", "log-%s-%d.log" % (sec.get("name") or "root", i))
             else:
                 h["path_text"] = h["path"]
     text = config_text(cfg)
@@ -270,6 +274,7 @@ def check_config(cfg, ops, tmp, ls):
     rec = make_record()
     live = []          # (handler, spec) of file handlers created and still referenced
     created = {}
+    attempts = {}      # section index -> handlers of the target logger before the first attempt
     root = logging.getLogger()
     for step, op in enumerate(ops):
         kind = op[0]
@@ -281,9 +286,15 @@ def check_config(cfg, ops, tmp, ls):
             first = i not in created
             target = root if sec["type"] == "eventlog" or sec.get("name") is None else logging.getLogger(sec["name"])
             before = list(target.handlers)
+            if first:
+                attempts.setdefault(i, list(before))
+            missing = [h for h in sec["handlers"] if h["path"] == "MISSINGDIR" and not os.path.isdir(os.path.dirname(h["path_text"]))
+                       and (h.get("delay") or "").lower() not in ("yes", "true", "on")]
             try:
                 lg = fac()
             except Exception as e:  # noqa
+                if missing and isinstance(e, OSError):
+                    continue          # the log directory does not exist yet: the caller may retry
                 out.append(("factory-raises-for-loaded-configuration:%s" % type(e).__name__,
                             "%s ; %r" % (str(e)[:200], text)))
                 return "accepted", out
@@ -302,7 +313,7 @@ def check_config(cfg, ops, tmp, ls):
                 wantp = True if sec.get("propagate") is None else sec["propagate"].lower() in ("yes", "true", "on")
                 if bool(lg.propagate) != wantp:
                     out.append(("wrong-propagate", "%r gives %r" % (sec.get("propagate"), lg.propagate)))
-            new = [h for h in lg.handlers if h not in before]
+            new = [h for h in lg.handlers if h not in attempts.get(i, before)]
             specs = sec["handlers"]
             if not specs:
                 if len(new) != 1 or not isinstance(new[0], logging.NullHandler):
@@ -349,6 +360,8 @@ def check_config(cfg, ops, tmp, ls):
                     want = None        # '%s' applied to the whole record mapping: not a meaningful format
                 if want is not None and rendered != want:
                     out.append(("wrong-rendering", "style %s format %r: %r expected %r" % (style, fmt, rendered, want)))
+        elif kind == "mkdir":
+            os.makedirs(os.path.join(tmp, "later"), exist_ok=True)
         elif kind == "reopen":
             i = op[1] % len(cfg)
             if i in created and factories[i] is not None:
@@ -546,7 +559,10 @@ def gen_config(rng, idx):
     return cfg
 
 
-def gen_ops(rng, n):
+def gen_ops(rng, n, retry=False):
+    if retry:
+        k = rng.randrange(4)
+        return [("call", k), ("mkdir", 0), ("call", k), ("again", k), ("reopenFiles", 0), ("closeFiles", 0)]
     ops = [("call", rng.randrange(4))]
     for _ in range(rng.randint(0, 5)):
         k = rng.choice(["call", "again", "reopen", "reopenFiles", "closeFiles", "drop", "call"])
@@ -643,7 +659,15 @@ def run_shard(spec):
     for i in range(spec["lo"], spec["hi"]):
         rng = loadcheck.case_rng(spec["seed"] + 2020, i)
         cfg = gen_config(rng, i)
-        ops = gen_ops(rng, len(cfg))
+        retry = rng.random() < 0.12
+        if retry:
+            cands = [h for sec in cfg for h in sec["handlers"] if h["path"] == "FILE"]
+            if cands:
+                rng.choice(cands)["path"] = "MISSINGDIR"
+                counters["retry-after-failed-call"] += 1
+            else:
+                retry = False
+        ops = gen_ops(rng, len(cfg), retry)
         res.evaluations += 1
         status, fl = run_case(cfg, ops)
         counters["random:" + status] += 1
@@ -669,7 +693,7 @@ def config_text_safe(cfg):
     c = copy.deepcopy(cfg)
     for sec in c:
         for i, h in enumerate(sec["handlers"]):
-            h["path_text"] = h["path"] if h["path"] != "FILE" else "<tmp>/log-%d.log" % i
+            h["path_text"] = h["path"] if h["path"] not in ("FILE", "MISSINGDIR") else "<tmp>/log-%d.log" % i
     return config_text(c)
 
 
